@@ -22,6 +22,9 @@ type KnownFinding struct {
 	Class      string `json:"class"` // contract expression over the function's entry values; "" = the whole obligation
 	What       string `json:"what"`
 	Replay     string `json:"replay,omitempty"`
+	// Marker is a fragment of the line the replay corpus prints for this finding's own witness; the corpus fallback
+	// (contracts no longer checkable) does not report lines carrying it, so a listed finding is never raised again
+	Marker string `json:"replay_marker,omitempty"`
 }
 
 type KFFile struct {
@@ -95,6 +98,47 @@ func cmdCheck(args []string) {
 	}
 	var kf KFFile
 	readJSON(filepath.Join(*verif, "known_findings.json"), &kf)
+	// undecidable marks the situations in which the contracts can no longer be checked against the code (a contract
+	// names something the code no longer has, a unit left the supported subset, a vacuity guard failed). Before the
+	// run is given up as broken, the replay corpora of the property's adapters are run on the real code: a failing
+	// input found there is a violation shown on the real code; if none is found the run is reported as broken (exit 2).
+	undecidable := func(f string, a ...interface{}) {
+		reason := fmt.Sprintf(f, a...)
+		for _, ad := range p.adaptersFor(*prop) {
+			src, out, _, err := runReplay(p, *verif, ad, map[string]string{"tier": "\"quick\"", "seed": strconv.Itoa(seed)}, sd)
+			if err != nil {
+				continue
+			}
+			var hits []string
+			for _, ln := range strings.Split(out, "\n") {
+				if !strings.Contains(ln, "PROPERTY-VIOLATED") || !strings.Contains(ln, *prop) {
+					continue
+				}
+				known := false
+				for _, kfi := range kf.Findings {
+					if kfi.Marker != "" && strings.Contains(ln, kfi.Marker) {
+						known = true
+					}
+				}
+				if !known {
+					hits = append(hits, strings.TrimSpace(ln))
+				}
+			}
+			if len(hits) == 0 {
+				continue
+			}
+			rd := filepath.Join(*verif, "evidence", "replay")
+			os.MkdirAll(rd, 0755)
+			file := filepath.Join(rd, sanitize(*prop+".corpus."+ad)+".json")
+			b, _ := json.MarshalIndent(map[string]interface{}{"property": *prop, "obligation": "corpus:" + ad, "reason": "the contracts could not be checked against this tree (" + reason + "); the replay corpus of adapter " + ad + " was run on the real code instead",
+				"verdict": "failing input found on the real code", "failing": hits, "replay_adapter": ad, "replay_output": replayExcerpt(out), "replay_test_source": src, "replay_confirmed_on_real_code": true}, "", " ")
+			os.WriteFile(file, b, 0644)
+			fmt.Printf("note: contracts not checkable on this tree: %s\n", reason)
+			fmt.Printf("VIOLATION property=%s replay=%s obligation=corpus:%s\n", *prop, file, ad)
+			os.Exit(1)
+		}
+		broken("%s", reason)
+	}
 
 	// 1. generate
 	var obs []*Oblig
@@ -226,6 +270,7 @@ func cmdCheck(args []string) {
 	// Guards run concurrently with the main solving. A guard fails only on `unsat` (no return reachable /
 	// hypothesis and lemma instances contradictory); a model search that times out is not a failure.
 	guards := 0
+	var guardFails []string // reported after the violations: a failed guard makes a pass untrustworthy, not a counterexample
 	type gres struct {
 		what string
 		ok   bool
@@ -254,7 +299,7 @@ func cmdCheck(args []string) {
 			bySite[pos] = append(bySite[pos], pc)
 		}
 		for _, site := range sites {
-			if u.fc != nil && u.fc.deadReturn(returnOrdinal(u.fn, site)) {
+			if u.fc != nil && u.fc.deadReturn(sourceLine(p.prog.Fset.Position(site))) {
 				continue
 			}
 			ngu++
@@ -311,9 +356,10 @@ func cmdCheck(args []string) {
 		g := <-gout
 		guards += g.n
 		if !g.ok {
-			broken("vacuity guard: %s", g.what)
+			guardFails = append(guardFails, g.what)
 		}
 	}
+	sort.Strings(guardFails)
 	dbg("guards done")
 	names := aggregate(rs)
 	byName := map[string]*NameResult{}
@@ -391,7 +437,7 @@ func cmdCheck(args []string) {
 			ad := bounded[c]
 			out, ok := ran[ad]
 			if !ok {
-				_, o, _, err := runReplay(p, *verif, ad, map[string]string{"tier": "\"" + *tier + "\""}, sd)
+				_, o, _, err := runReplay(p, *verif, ad, map[string]string{"tier": "\"" + *tier + "\"", "seed": strconv.Itoa(seed)}, sd)
 				if err != nil {
 					broken("bounded adapter %s: %v", ad, err)
 				}
@@ -399,13 +445,23 @@ func cmdCheck(args []string) {
 				ran[ad] = out
 			}
 			res := "pass"
-			if strings.Contains(out, "PROPERTY-VIOLATED") {
+			// an adapter shared by several properties names the property in each verdict line; only lines for the
+			// property being checked (or lines naming none) count here
+			violated := false
+			for _, ln := range strings.Split(out, "\n") {
+				if strings.Contains(ln, "PROPERTY-VIOLATED") && (strings.Contains(ln, *prop) || !propIDRe.MatchString(ln)) {
+					violated = true
+				}
+			}
+			if violated {
 				res = "VIOLATED"
 				f := filepath.Join(filepath.Join(*verif, "evidence", "replay"), sanitize("bounded."+ad)+".json")
 				os.MkdirAll(filepath.Dir(f), 0755)
 				b, _ := json.MarshalIndent(map[string]interface{}{"property": *prop, "obligation": c, "bounded_adapter": ad, "replay_adapter": ad, "verdict": "bounded check found a failing input on the real code", "replay_output": replayExcerpt(out), "replay_test_source": ran[ad+"#src"]}, "", " ")
 				os.WriteFile(f, b, 0644)
 				boundedViolations = append(boundedViolations, fmt.Sprintf("VIOLATION property=%s replay=%s obligation=%s", *prop, f, c))
+			} else if strings.Contains(out, "PROPERTY-VIOLATED") {
+				res = "stopped early on a violation of another property (reported by that property's check)"
 			} else if !strings.Contains(out, "BOUNDED-OK") {
 				broken("bounded adapter %s did not complete: %s", ad, truncate(out, 400))
 			}
@@ -420,8 +476,14 @@ func cmdCheck(args []string) {
 
 	// 4. verdicts
 	expected := map[string]bool{}
+	// an at-call clause is claimed for every call site of the callee in the function: a failing instance at a call
+	// site that the baseline did not have (name differs only in the #N suffix) is a failure of the same claimed clause
+	expectedClause := map[string]bool{}
 	for _, n := range ledger[*prop] {
 		expected[n] = true
+		if i := strings.LastIndex(n, "#"); i > 0 && strings.Contains(n, ".at.") {
+			expectedClause[n[:i]] = true
+		}
 	}
 	kfBy := map[string][]KnownFinding{}
 	for _, f := range kf.Findings {
@@ -489,7 +551,11 @@ func cmdCheck(args []string) {
 				report(n, "fails outside the classes listed in known_findings.json")
 			}
 		case n.Status == "failed":
-			if expected[n.Name] {
+			base := n.Name
+			if i := strings.LastIndex(base, "#"); i > 0 {
+				base = base[:i]
+			}
+			if expected[n.Name] || (n.Kind == "at-call" && expectedClause[base]) {
 				nOblig++
 				report(n, "obligation was discharged on the baseline tree and now has a counterexample")
 			} else {
@@ -601,11 +667,17 @@ func cmdCheck(args []string) {
 		for _, v := range violations {
 			fmt.Println(v)
 		}
+		for _, g := range guardFails {
+			fmt.Printf("note: vacuity guard also failed: %s\n", g)
+		}
 		os.Exit(1)
+	}
+	if len(guardFails) > 0 {
+		undecidable("vacuity guard: %s", strings.Join(guardFails, "; "))
 	}
 	for _, u := range units {
 		if u.unsupported != "" {
-			broken("function %s left the supported subset: %s", p.keyOf[u.fn], u.unsupported)
+			undecidable("function %s left the supported subset: %s", p.keyOf[u.fn], u.unsupported)
 		}
 	}
 	if len(unbound) > 0 {
@@ -613,14 +685,14 @@ func cmdCheck(args []string) {
 			for _, fc := range []*FuncContract{p.cs.Funcs[ub]} {
 				for _, c := range fc.Clauses {
 					if hasProp(c.Props, *prop) {
-						broken("contract %s does not bind to any function in /repo", ub)
+						undecidable("contract %s does not bind to any function in /repo", ub)
 					}
 				}
 			}
 		}
 	}
 	if len(missingHard) > 0 && !*writeLedger {
-		broken("obligations in the baseline ledger were not generated: %v", missingHard)
+		undecidable("obligations in the baseline ledger were not generated: %v", missingHard)
 	}
 	if nOblig == 0 && len(knownLines) == 0 {
 		broken("no obligations generated")
@@ -930,4 +1002,50 @@ func returnOrdinal(fn *ssa.Function, pos token.Pos) int {
 		}
 	}
 	return 0
+}
+
+// sourceLine returns the text of the source line of a position ("" if unreadable).
+func sourceLine(pos token.Position) string {
+	b, err := os.ReadFile(pos.Filename)
+	if err != nil {
+		return ""
+	}
+	ls := strings.Split(string(b), "\n")
+	if pos.Line < 1 || pos.Line > len(ls) {
+		return ""
+	}
+	return ls[pos.Line-1]
+}
+
+var propIDRe = regexp.MustCompile(`\bC[0-9][0-9]\b`)
+
+// adaptersFor lists the replay adapters attached to contracts that carry clauses of the property.
+func (p *Prog) adaptersFor(prop string) []string {
+	seen := map[string]bool{}
+	var keys []string
+	for k := range p.cs.Funcs {
+		keys = append(keys, k)
+	}
+	sort.Strings(keys)
+	for _, k := range keys {
+		fc := p.cs.Funcs[k]
+		has := false
+		for _, c := range fc.Clauses {
+			if hasProp(c.Props, prop) {
+				has = true
+			}
+			if c.Kind == "ensures-bounded" && hasProp(c.Props, prop) {
+				if c.Callee != "" {
+					seen[c.Callee] = true
+				}
+			}
+		}
+		if !has {
+			continue
+		}
+		if rs := fc.replayFor([]string{prop}); rs != nil && rs.Adapter != "" {
+			seen[rs.Adapter] = true
+		}
+	}
+	return sortedKeys(seen)
 }
